@@ -1,5 +1,5 @@
 HOOK_COMMITS = ["0cc1f16"]
-FIX_COMMITS = ["f6ef902", "7953ad1", "5a73e74", "74bd988", "162c4e5", "d681b06", "d1e67ed", "f178a91", "418e2ff", "882956a", "d9c0ebc", "11b0018", "91d1a50", "a9847ff", "743a30c", "d549723", "3e1966b", "816a010", "7ee2a7b", "bd3a255", "d87f4bc", "631a338", "de5bff3", "946afa5", "d41c9aa", "06c6f23", "210e7e2", "c26765c", "9c63f25", "c602bea", "370a097", "8bdfd58", "835a652", "1838bee"]
+FIX_COMMITS = ["f6ef902", "7953ad1", "5a73e74", "74bd988", "162c4e5", "d681b06", "d1e67ed", "f178a91", "418e2ff", "882956a", "d9c0ebc", "11b0018", "91d1a50", "a9847ff", "743a30c", "d549723", "3e1966b", "816a010", "7ee2a7b", "bd3a255", "d87f4bc", "631a338", "de5bff3", "946afa5", "d41c9aa", "06c6f23", "210e7e2", "c26765c", "9c63f25", "c602bea", "370a097", "8bdfd58", "835a652", "1838bee", "af85037"]
 NOTES = "All checks: bin/check <ID> --tier quick|thorough [--replay file]; exit 0/1/2 (2 = TOOL-ERROR). See DESIGN.md."
 NOT_APPLICABLE = {}
 _EVAL_NOTE = "Program-level values of 32/64-bit types are restricted to magnitude < 2^30 (TLC integers); runs outside the modelled fragment are counted as out_of_model and not judged. The typed AST is the checker's (parser desugarings such as <= and op-assignment are already applied), so duplicated evaluation introduced by the parser is not visible in this direction. Trusted: the projection typed AST -> JSON (harness/src/proj.rs), JSON value -> Literal conversion, TLC."
